@@ -335,6 +335,27 @@ def run_check(prop, tier, seed):
                 if len(samples) < 3:
                     samples.append({"id": i, "input": s[:600]})
     nontrivial = len(hashes)
+    # what the generated and corpus inputs look like: how many of them use each feature of the instruction language
+    feats = collections.OrderedDict([
+        ("struct", r"\bstruct\b"), ("enum", r"\benum\b"), ("tuple_struct_or_variant", r"\w\s*\((?![^)]*:)[^)]*\)\s*[;,}]"),
+        ("two_or_more_counterparts", None), ("fallible_instruction", r"\btry_|_try_"), ("dedication `Type|`", r"\w[\w:<>', ]*\|"),
+        ("shape_hint as {} / as ()", r" as (\{\}|\(\)|Unit)"), ("member_rename_or_expression", r"#\[(o2o\()?(try_)?(map|from|into|owned_into|ref_into|from_owned|from_ref|map_owned|map_ref)\w*\("),
+        ("ghost (member)", r"#\[(o2o\()?ghost(_owned|_ref)?\b"), ("ghosts (type / variant)", r"ghosts(_owned|_ref)?\("), ("child", r"#\[(o2o\()?child\("),
+        ("child_parents", r"child_parents\("), ("parent bare", r"#\[parent\]"), ("parent with list", r"#\[(o2o\()?parent\("), ("nested [instr(..)] in parent", r"parent\([^\]]*\["),
+        ("repeat / skip / stop", r"\b(repeat|skip_repeat|stop_repeat)\b"), ("vars", r"vars\("), ("update `..`", r"\| [^#]*\.\.[A-Za-z{@]"), ("quick return", r"\breturn "),
+        ("attribute params", r"\b(attribute|impl_attribute|inner_attribute)\("), ("type_hint (variant)", r"type_hint\("), ("literal / pattern", r"#\[(o2o\()?(literal|pattern)\("),
+        ("default case `_ =>`", r"_ =>"), ("where_clause", r"where_clause\("), ("generic type or counterpart", r"<[^>]*>"), ("grouped #[o2o(..)] spelling", r"#\[o2o\("), ("as_type", r"as_type\("),
+        ("allow_unknown / foreign attrs", r"allow_unknown|serde|doc_hidden|derive\(")])
+    hist = collections.OrderedDict((k, 0) for k in feats)
+    for _, s in cases:
+        for k, rx in feats.items():
+            if rx is None:
+                m = re.findall(r"#\[(?:o2o\()?(?:try_|owned_|ref_)*(?:map|from|into)\w*\(\s*([A-Za-z_:][\w:]*)", s.split(" struct ")[0].split(" enum ")[0])
+                if len(set(m)) >= 2:
+                    hist[k] += 1
+            elif re.search(rx, s):
+                hist[k] += 1
+    cov["input_features"] = {"inputs": len(cases), "using": dict(hist)}
     cov.update({"evaluations": evals, "distinct_nontrivial": nontrivial, "rule": P.RULES.get(prop, P.RULES["default"]),
                 "samples": samples, "outcome_kinds": dict(kinds), "skipped_unsupported": unsupported, "profiles": spec["profiles"],
                 "correspondence_disagreements": len(disagreements)})
